@@ -124,6 +124,8 @@ def labels_for(problem):
         labs.append("zero-energy-level")
     if problem.get("ref_shift"):
         labs.append("far-offset-spectrum")
+    if problem.get("int_dtype"):
+        labs.append("integer-dtype")
     st_ = [[i for i, a in enumerate(problem["assign"]) if a == b] for b in range(len(problem["blocks"]))]
     if any(len({(problem["energy"][i], problem["eimag"][i]) for i in s}) < len(s) for s in st_):
         labs.append("degenerate-level-in-block")
